@@ -4,8 +4,10 @@ pub mod bits;
 pub mod chain;
 pub mod common;
 pub mod dynops;
+pub mod garbage;
 pub mod harness;
 pub mod model;
+pub mod poison;
 pub mod range;
 pub mod refs;
 pub mod rng;
@@ -29,21 +31,23 @@ fn usage() -> ! {
 
 fn runs_for(prop: &str, thorough: bool) -> u64 {
     let (q, t) = match prop {
-        "C01" => (60_000, 1_500_000),
-        "C02" => (60_000, 1_500_000),
-        "C11" => (60_000, 1_500_000),
-        "C05" => (60_000, 1_500_000),
-        "C13" => (60_000, 1_500_000),
-        "C14" => (60_000, 1_500_000),
-        "C16" => (100_000, 3_000_000),
-        "C17" => (200_000, 6_000_000),
-        "C04" => (60_000, 1_500_000),
-        "C06" => (60_000, 1_500_000),
-        "C07" => (40_000, 1_000_000),
-        "C08" => (40_000, 1_000_000),
-        "C09" => (40_000, 1_000_000),
-        "C12" => (20_000, 300_000),
-        "C18" => (40_000, 1_000_000),
+        "C01" => (600_000, 6_000_000),
+        "C02" => (400_000, 4_000_000),
+        "C04" => (400_000, 4_000_000),
+        "C05" => (300_000, 3_000_000),
+        "C06" => (600_000, 6_000_000),
+        "C07" => (400_000, 4_000_000),
+        "C08" => (400_000, 4_000_000),
+        "C09" => (400_000, 4_000_000),
+        "C10" => (500_000, 5_000_000),
+        "C11" => (400_000, 4_000_000),
+        "C12" => (100_000, 600_000),
+        "C13" => (400_000, 4_000_000),
+        "C14" => (400_000, 4_000_000),
+        "C16" => (600_000, 6_000_000),
+        "C17" => (1_000_000, 10_000_000),
+        "C18" => (400_000, 4_000_000),
+        "C20" => (400_000, 4_000_000),
         _ => (20_000, 200_000),
     };
     if thorough { t } else { q }
@@ -99,6 +103,7 @@ fn main() {
                 seed,
                 jobs,
                 level: level_for(&prop).to_string(),
+                miri_runs: if prop == "C20" && thorough { std::env::var("SIMCHECK_MIRI_RUNS").ok().and_then(|s| s.parse().ok()).unwrap_or(640) } else { std::env::var("SIMCHECK_MIRI_RUNS").ok().and_then(|s| s.parse().ok()).unwrap_or(0) },
             };
             std::process::exit(harness::check(&opts));
         }
@@ -141,6 +146,53 @@ fn main() {
                 Ok(()) => println!("VERDICT held"),
                 Err(v) => println!("VERDICT {}", serde_json::to_string(&v).unwrap()),
             }
+        }
+        "digest" => {
+            // digest <prop> <from> <to>: one line per run with trace hash, verdict and a hash
+            // of the reach counters (used by `selftest determinism`)
+            quiet_panics();
+            let prop = &args[2];
+            let from: u64 = args[3].parse().unwrap();
+            let to: u64 = args[4].parse().unwrap();
+            let seed = std::env::var("VERIF_SEED").ok().and_then(|s| s.parse::<u64>().ok()).unwrap_or(1);
+            for i in from..to {
+                let t = worlds::generate(prop, rng::run_seed(seed, prop, i), i, false);
+                let mut st = common::Stats::default();
+                let v = harness::run_trace(prop, &t, &mut st);
+                let ch = rng::hash_str(&serde_json::to_string(&st.counters).unwrap()) ^ rng::hash_str(&serde_json::to_string(&st.states).unwrap());
+                println!("{} {:016x} {:016x} {}", i, harness::trace_hash(&t), ch, match v { Ok(()) => "held".to_string(), Err(v) => format!("{}@{}", v.class(), v.op) });
+            }
+        }
+        "selftest" => {
+            // selftest determinism [runs-per-property]
+            let n: u64 = args.get(3).and_then(|s| s.parse().ok()).unwrap_or(2000);
+            let exe = std::env::current_exe().unwrap();
+            let props = ["C01", "C02", "C04", "C05", "C06", "C07", "C08", "C09", "C10", "C11", "C12", "C13", "C14", "C16", "C17", "C18", "C20"];
+            let mut bad = 0;
+            for p in props {
+                // (a) one process doing everything, (b) 4 processes, (c) 16 processes, (d) another VERIF_SEED twice
+                let run = |parts: u64, seed: &str| -> String {
+                    let chunk = (n + parts - 1) / parts;
+                    let mut kids = Vec::new();
+                    let mut a = 0;
+                    while a < n {
+                        let b = (a + chunk).min(n);
+                        kids.push(std::process::Command::new(&exe).args(["digest", p, &a.to_string(), &b.to_string()]).env("VERIF_SEED", seed).stderr(std::process::Stdio::null()).stdout(std::process::Stdio::piped()).spawn().unwrap());
+                        a = b;
+                    }
+                    kids.into_iter().map(|k| String::from_utf8_lossy(&k.wait_with_output().unwrap().stdout).to_string()).collect::<Vec<_>>().join("")
+                };
+                let a = run(1, "1");
+                let b = run(4, "1");
+                let c = run(16, "1");
+                let d1 = run(3, "7");
+                let d2 = run(16, "7");
+                let lines = a.lines().count() as u64;
+                let ok = a == b && b == c && d1 == d2 && lines == n && a != d1;
+                println!("selftest determinism {}: {} runs x 5 executions (1/4/16 processes; 2 seeds): {}", p, n, if ok { "identical digests" } else { "MISMATCH" });
+                if !ok { bad += 1; }
+            }
+            std::process::exit(if bad == 0 { 0 } else { 2 });
         }
         "gen" => {
             // gen <prop> <index>: print the generated trace (debugging aid)
